@@ -40,7 +40,17 @@ def shape_list(rng, tier):
             out.append((False, [(kind, [(0, a), (1, ''), (2, b)])]))
             out.append((True, [('unit', []), (kind, [(0, a), (2, b)])]))
     out.append((False, [('unit', [])]))
-    # enums
+    # enums: a transparent field in EVERY variant (the one-transparent-field rule is per variant)
+    for kinds in (('tuple', 'named'), ('named', 'tuple', 'tuple'), ('tuple', 'unit', 'named')):
+        vs = []
+        for j, kind in enumerate(kinds):
+            if kind == 'unit':
+                vs.append((kind, []))
+            else:
+                n = 1 + j
+                t = rng.randrange(n)
+                vs.append((kind, [(rng.randrange(len(FT)), 'T' if i == t else rng.choice(['', 'I'])) for i in range(n)]))
+        out.append((True, vs))
     for _ in range(30 if tier == 'quick' else 300):
         vs = []
         for _ in range(rng.randrange(1, 4)):
@@ -127,7 +137,7 @@ class C10(Prop):
             head = ('#[::derive_ex::derive_ex(%s)]\n' % r.attr) if r.mode == 'A' else '#[derive(::derive_ex::Ex)]\n'
             ty = 'E' if m['enum'] else 'X'
             g = '<T>' if m['generic'] else ''
-            src = [head + r.item]
+            src = [l2.decl(head, r.item, r.cid)]
             twin = []
             for vi, (kind, fts) in enumerate(m['vs']):
                 decl, _ = rust_fields(kind, fts, m['raw'], lambda f: f != 'I')
